@@ -468,6 +468,16 @@ def _run_set(case):
         must_raise("Delegations.add_delegations/duplicate-id",
                    lambda: ds_b.add_delegations(_mk_delegation(atype, newd), _mk_delegation(atype, dup_src)),
                    lambda: all(_norm_delegations(ds_b).get(k) == x for k, x in exp.items()))
+    # 2d'. two NEW delegations with one id in a single call: duplicate ids are always rejected
+    ds_c = _mk_delegations(atype, dels)
+    tw1 = {"id": "twice-in-one-call", "fmt": "def", "pool": "pool-z",
+           "details": next((e["details"] for e in dels if e["details"]), None) or
+           ({"unit": 1} if atype == "CAPACITY" else {"local_name": "zz"})}
+    tw2 = {"id": "twice-in-one-call", "fmt": "ref", "pool": "pool-w", "details": None}
+    if "twice-in-one-call" not in exp:
+        must_raise("Delegations.add_delegations/duplicate-id-within-call",
+                   lambda: ds_c.add_delegations(_mk_delegation(atype, tw1), _mk_delegation(atype, tw2)),
+                   lambda: all(_norm_delegations(ds_c).get(k) == x for k, x in exp.items()))
     # 2f. a non-single format without pool id
     for fmt in (DelegationFormat.PoolDefinition, DelegationFormat.PoolReference):
         must_raise("Delegation/no-pool-id", lambda: Delegation(atype=DelegationType[atype], delegation_id="x1",
